@@ -280,7 +280,7 @@ fn fmt_oracle(c: &FmtCase, obs: &mut Obs) -> Check {
 }
 
 pub fn run(ctx: &Ctx) {
-    ctx.set_rule("E2: (a) every filter of stdlib / stdlib+jekyll+shopify+extra (names taken from the parser's reflection) x every input of a 51-value pool (nil, booleans, integers to the i64 limits, floats incl. ties and infinities, empty / blank / non-ASCII / combining strings, date-like and path-like strings, arrays of mixed types up to 40 elements, arrays of objects, objects, empty/blank markers) x every argument tuple of arity <= 1 over the same pool and arity 2 over a 12-value sub-pool (thorough, and always for the filters only the extended configuration adds: the full pool), deliberately type-confused; (b) for / tablerow / cycle / include / render / case / increment / capture / ifchanged / interrupts with every attribute position filled from {0, 1, 2, -1, 10^4, i64::MAX, i64::MIN, '3', 'x', 1.5, nil, true, [], {}} over 8 collection forms; (d) every format string of <= 3 (thorough 4) symbols over {% - _ 0 ^ # : 3 12 E O Y z L e-acute emoji} for date and date_in_tz; E1: (c) random well-formed templates using every tag, block and filter on random nested data, rendered with render and render_to. Oracle: no panic; Ok or Err; emitted bytes valid UTF-8; render == render_to. Non-trivial = every case (each exercises a filter or tag on a non-default argument); distinct by (construct, input kind, argument kinds) for the cubes and by source+data for random templates.");
+    ctx.set_rule("E2: (a) every filter of stdlib / stdlib+jekyll+shopify+extra (names taken from the parser's reflection) x every input of a 51-value pool (nil, booleans, integers to the i64 limits, floats incl. ties and infinities, empty / blank / non-ASCII / combining strings, date-like and path-like strings, arrays of mixed types up to 40 elements, arrays of objects, objects, empty/blank markers) x every argument tuple of arity <= 1 over the same pool and arity 2 over a 12-value sub-pool (thorough, and always for the filters only the extended configuration adds: the full pool), deliberately type-confused; every filter x 72 strings built from characters whose case mappings change length, 4-byte characters, combining marks and Unicode blanks x 11 small argument tuples; (b) for / tablerow / cycle / include / render / case / increment / capture / ifchanged / interrupts with every attribute position filled from {0, 1, 2, -1, 10^4, i64::MAX, i64::MIN, '3', 'x', 1.5, nil, true, [], {}} over 8 collection forms; (d) every format string of <= 3 (thorough 4) symbols over {% - _ 0 ^ # : 3 12 E O Y z L e-acute emoji} for date and date_in_tz, and every printable ASCII character as a directive behind 13 flag / width / colon prefixes on 10 timestamps at field edges (midnight, noon, last second, years 1 and 9999, leap day, extreme offsets); E1: (c) random well-formed templates using every tag, block and filter on random nested data, rendered with render and render_to. Oracle: no panic; Ok or Err; emitted bytes valid UTF-8; render == render_to. Non-trivial = every case (each exercises a filter or tag on a non-default argument); distinct by (construct, input kind, argument kinds) for the cubes and by source+data for random templates.");
     ctx.assume("ranges and widths above 10^4 are excluded (unbounded work by design, as in the statement); explosive generated programs are discarded by a cost estimate");
     for conf in [Conf::Stdlib, Conf::Full] {
         let names = lq::filter_names(conf);
@@ -314,6 +314,27 @@ pub fn run(ctx: &Ctx) {
             }, filter_oracle);
         }
     }
+    // characters whose case mappings change their length (ı→I, ﬁ→FI, ŉ→ʼN, ß→SS, İ→i̇, ...), 4-byte
+    // characters, combining marks and Unicode blanks at the first / last / only position: every
+    // filter, arity 0 and arity 1 / 2 over small integers and short strings
+    {
+        let specials = ['ı', 'ﬁ', 'ŉ', 'ΐ', 'ǰ', 'ſ', 'ⱥ', 'ß', 'ǆ', 'İ', 'ᾳ', 'ﬃ', 'Ⱥ', '😀', '\u{301}', '\u{a0}', '\u{2028}', '\u{85}'];
+        let mut inputs: Vec<RV> = Vec::new();
+        for ch in specials {
+            inputs.push(st(&ch.to_string()));
+            inputs.push(st(&format!("{ch}stanbul")));
+            inputs.push(st(&format!("ab{ch}")));
+            inputs.push(st(&format!("{ch}{ch} {ch}x{ch}")));
+        }
+        let args: Vec<Vec<RV>> = vec![vec![], vec![RV::Int(1)], vec![RV::Int(-1)], vec![RV::Int(2)], vec![st("ı")], vec![st("")], vec![RV::Int(0), RV::Int(1)], vec![RV::Int(1), RV::Int(2)], vec![RV::Int(-2), RV::Int(3)], vec![st("ß"), st("ﬁ")], vec![RV::Int(2), st("İ")]];
+        let names = lq::filter_names(Conf::Full);
+        let (nf, ni, na) = (names.len() as u64, inputs.len() as u64, args.len() as u64);
+        let (names, inputs, args) = (&names, &inputs, &args);
+        ctx.exhaustive("special_casing_strings", nf * ni * na, move |i| {
+            let d = decode(i, &[nf, ni, na])?;
+            Some(FilterCase { conf: Conf::Full, filter: names[d[0] as usize].clone(), input: inputs[d[1] as usize].clone(), args: args[d[2] as usize].clone() })
+        }, filter_oracle);
+    }
     ctx.cases("tag_attributes", tag_cases(), tag_oracle);
     let flen = ctx.pick(3, 4);
     let ts = Ts { unix: 1_583_020_799, nanos: 5_000_000, offset: -(3 * 3600 + 1800) };
@@ -325,6 +346,28 @@ pub fn run(ctx: &Ctx) {
             Some(FmtCase { fmt: d.iter().map(|x| FMT_ALPHA[*x as usize]).collect(), ts, filter: if which == 0 { "date".into() } else { "date_in_tz".into() } })
         }, fmt_oracle);
     }
+    // every printable ASCII character as a directive, plain and behind each flag / width / colon,
+    // on timestamps at the edges of each field (midnight, noon, last second, first and last year,
+    // leap day, negative and extreme offsets, sub-second fractions)
+    let stamps: Vec<Ts> = vec![
+        Ts { unix: 0, nanos: 0, offset: 0 },
+        Ts { unix: 1_582_934_400, nanos: 0, offset: 0 },            // 2020-02-29 00:00:00
+        Ts { unix: 1_582_977_600, nanos: 1, offset: 0 },            // 12:00:00
+        Ts { unix: 1_583_020_799, nanos: 999_999_999, offset: 0 },  // 23:59:59
+        Ts { unix: 1_582_934_400 + 3600, nanos: 0, offset: -3600 }, // local midnight west of UTC
+        Ts { unix: -62_135_596_800, nanos: 0, offset: 0 },          // 0001-01-01
+        Ts { unix: 253_402_300_799, nanos: 0, offset: 0 },          // 9999-12-31 23:59:59
+        Ts { unix: 1_583_020_799, nanos: 5_000_000, offset: 50_400 },
+        Ts { unix: 1_583_020_799, nanos: 0, offset: -43_200 },
+        Ts { unix: -1, nanos: 0, offset: 1800 },
+    ];
+    let prefixes = ["", "-", "_", "0", "^", "#", ":", "::", "10", "-3", "010", "E", "O"];
+    let (ns, npre) = (stamps.len() as u64, prefixes.len() as u64);
+    ctx.exhaustive("strftime_every_directive", 2 * 95 * npre * ns, move |i| {
+        let d = decode(i, &[2, 95, npre, ns])?;
+        let ch = (0x20u8 + d[1] as u8) as char;
+        Some(FmtCase { fmt: format!("a%{}{ch}b", prefixes[d[2] as usize]), ts: stamps[d[3] as usize], filter: if d[0] == 0 { "date".into() } else { "date_in_tz".into() } })
+    }, fmt_oracle);
     ctx.random("templates", ctx.pick(200_000, 1_500_000), prog_strategy, prog_oracle);
 }
 
